@@ -129,6 +129,10 @@ def tlwe_groups(tag, tier):
                         defines={'VERIF_K': K}, instance={'k': K}, replay=('tlwe', 'tLweCopy')))
         gs.append(Group('%s.tLweAddRTTo.k=%d' % (tag, K), 'c14_tlwe.c', 'h_tLweAddRTTo', extract=[(TL, 'tLweAddRTTo')], enforce='tLweAddRTTo', loops=True,
                         backend='cvc5', defines={'VERIF_K': K}, instance={'k': K}, replay=('tlwe', 'tLweAddRTTo')))
+        for fn, dd in (('tLweAddMulTo', {}), ('tLweSubMulTo', {'B_SUB': None})):
+            for P in (P_VAR if tier == 'thorough' else ['3', '(-181)']):
+                gs.append(Group('%s.%s.var.k=%d.p=%s' % (tag, fn, K, P), 'c14_tlwe_var.c', 'h_tlwe_var', extract=[(TL, fn)], unwind=K + 3,
+                                defines=dict(dd, VERIF_K=K, VERIF_PCONST=P), instance={'k': K, 'p': P, 'N': 'any (monitors)'}, replay=('tlwe', fn)))
         for fn in ['tLweExtractLweSampleIndex', 'tLweExtractKey']:
             gs.append(Group('%s.%s.k=%d' % (tag, fn, K), 'c14_tlwe.c', 'h_' + fn, extract=[(LW, fn)], enforce=fn, loops=True, timeout=1200,
                             defines={'VERIF_K': K}, instance={'k': K}, replay=('extract', fn)))
@@ -907,7 +911,7 @@ PROPS = {
         'assumptions': STD_ASSUME + [
             'phase-level conclusion: lifting "every coordinate and b are affine" + "the step acc += a*s is linear" to the inner product sum_i a_i*s_i is induction on n, not machine-checked (DESIGN 2.3)',
             'subtract-and-multiply variants (lweSubMulTo, torusPolynomialSubMulZ(To), tLweSubMulTo): coordinate clause proved for the multiplier constants p in {0,1,-1,2,3,-8,65536,INT32_MIN}, not for symbolic p (32-bit multiplier congruence under an index equality is not decided by minisat/cadical/kissat/z3/cvc5 within 5 min; the add variants are decided by cvc5 for all p)',
-            'variance annotation of lweAddMulTo/lweSubMulTo (IEEE product): bounded stand-in only (n <= 3, p in {0,1,-1,3,-181,32767}), labelled bounded; tLweAddMulTo/tLweSubMulTo variance clause not claimed',
+            'variance annotation of lweAddMulTo/lweSubMulTo (IEEE product): bounded stand-in only (n <= 3, p in {0,1,-1,3,-181,32767}), labelled bounded; tLweAddMulTo/tLweSubMulTo: proved for every ring degree but for enumerated multipliers p only (same list; the coefficient-wise callee is a monitor there)',
             'AVX2 inline-assembly subtraction intVecSubTo_avx (optimised builds) is not seen: the proof covers the #else scalar loop of lweSubTo',
         ],
         'trusted': [],
